@@ -126,52 +126,98 @@ Theorem C19_seek_iter_yields_above : forall b q fuel,
 Proof. exact seek_iter_yields_above. Qed.
 Print Assumptions C19_seek_iter_yields_above.
 
-(* ---- the multi-block layer (indexWriter over a store) ----
-   [iok bl]: bl is a list of reachable non-empty blocks, block number i carrying
-   id i, fewer than 2^32 of them, all their ids together strictly ascending.
-   [stored db bl]: the store's metadata is the descriptors of bl and it holds
-   finish() of every block under its id.  [iabs bl] = all ids, block by block. *)
+(* ---- the multi-block layer (indexWriter and index pruner over a store) ----
+   [iok i0 bl]: bl is a list of reachable non-empty blocks, block number k carrying
+   id i0 + k (i0 > 0 after pruning), block ids below 2^32, all their ids together
+   strictly ascending.  [stored db bl]: the store's metadata is the descriptors of
+   bl and it holds finish() of every block under its id.  [iabs bl] = all ids. *)
 
 (* the metadata written for any such block list parses back to its descriptors *)
-Theorem C19_index_meta_round_trip : forall ds,
-  ds <> [] -> descs_ok 0 ds -> N.of_nat (length ds) <= 4294967296 ->
+Theorem C19_index_meta_round_trip : forall i0 ds,
+  ds <> [] -> descs_ok i0 ds -> N.of_nat (length ds) + i0 <= 4294967296 ->
   parse_index (flat_map desc_encode ds) = Ok ds.
 Proof. exact parse_index_round. Qed.
 Print Assumptions C19_index_meta_round_trip.
 
 (* reading a stored index back (metadata, then every block) gives the
    concatenation of the blocks' ids *)
-Theorem C19_index_stored_abs : forall db bl,
-  iok bl -> stored db bl -> db_abs db = Ok (iabs bl).
+Theorem C19_index_stored_abs : forall i0 db bl,
+  iok i0 bl -> stored db bl -> db_abs db = Ok (iabs bl).
 Proof. exact db_abs_spec. Qed.
 Print Assumptions C19_index_stored_abs.
 
 (* indexWriter.append, with rotation to a new block when the live one is full:
    fails exactly when id <= last, otherwise adds exactly the id at the end and
    keeps the invariant [iwrepr] (descriptor list, frozen writers, live writer) *)
-Theorem C19_index_append : forall w pre id,
-  iwrepr w pre -> id < two64 -> N.of_nat (length (pre ++ iw_frozen w)) + 2 < 4294967296 ->
+Theorem C19_index_append : forall i0 w pre id,
+  iwrepr i0 w pre -> id < two64 -> i0 + N.of_nat (length (pre ++ iw_frozen w)) + 2 < 4294967296 ->
   (id <= last (iw_abs w pre) 0 -> iw_append w id = Err EAppendOrder) /\
   (last (iw_abs w pre) 0 < id ->
-   exists w', iw_append w id = Ok w' /\ iwrepr w' pre /\ iw_abs w' pre = iw_abs w pre ++ [id] /\
+   exists w', iw_append w id = Ok w' /\ iwrepr i0 w' pre /\ iw_abs w' pre = iw_abs w pre ++ [id] /\
               (length (pre ++ iw_frozen w') <= S (length (pre ++ iw_frozen w)))%nat).
 Proof. exact iw_append_spec. Qed.
 Print Assumptions C19_index_append.
 
-(* a whole writer session on ANY stored index (so, by iteration, any sequence of
-   sessions): newIndexWriter with a limit that trims nothing, appends of a
-   non-empty ascending run of uint64 ids above the last stored id, finish: the
-   new store again satisfies [stored]/[iok] and reads back as old ids ++ new ids *)
-Theorem C19_index_writer_session : forall db bl limit ids,
-  iok bl -> stored db bl -> last (iabs bl) 0 <= limit ->
+(* a whole writer session on any stored index: newIndexWriter with a limit that
+   trims nothing, appends of a non-empty ascending run of uint64 ids above the
+   last stored id, finish: the new store again satisfies [stored]/[iok] and reads
+   back as old ids ++ new ids *)
+Theorem C19_index_writer_session : forall i0 db bl limit ids,
+  iok i0 bl -> stored db bl -> last (iabs bl) 0 <= limit ->
   ids <> [] -> asc (last (iabs bl) 0) ids ->
-  N.of_nat (length bl) + N.of_nat (length ids) + 2 < 4294967296 ->
-  exists w w' bl',
+  i0 + N.of_nat (length bl) + N.of_nat (length ids) + 2 < 4294967296 ->
+  exists i1 w w' bl',
     new_index_writer db limit = Ok w /\ iw_appends w ids = Ok w' /\
-    stored (iw_finish w' db) bl' /\ iok bl' /\ iabs bl' = iabs bl ++ ids /\
+    stored (iw_finish w' db) bl' /\ iok i1 bl' /\ (bl <> [] -> i1 = i0) /\ iabs bl' = iabs bl ++ ids /\
     db_abs (iw_finish w' db) = Ok (iabs bl ++ ids).
 Proof. exact writer_session. Qed.
 Print Assumptions C19_index_writer_session.
+
+(* the index pruner (pruneEntry) with tail t on any stored index drops exactly
+   the k leading blocks whose last id is below t ([lead_below]): it reports k,
+   the store then holds the remaining blocks (block ids now start at i0 + k),
+   every dropped id is < t, and the first kept block reaches t or beyond - so no
+   id >= t is ever removed, and in particular a block whose last id EQUALS t stays *)
+Theorem C19_prune_spec : forall i0 db bl tail,
+  iok i0 bl -> stored db bl ->
+  let k := lead_below bl tail in
+  snd (prune_entry db tail) = k /\
+  stored (fst (prune_entry db tail)) (skipn k bl) /\ iok (i0 + N.of_nat k) (skipn k bl) /\
+  (forall x, In x (iabs (firstn k bl)) -> x < tail) /\
+  (forall b r, skipn k bl = b :: r -> tail <= last (bw_abs b) 0) /\
+  iabs bl = iabs (firstn k bl) ++ iabs (skipn k bl).
+Proof. exact prune_spec. Qed.
+Print Assumptions C19_prune_spec.
+
+(* ---- all histories: [ihist db] = db is reached from the empty store by any
+   sequence of writer sessions (limit >= last id, non-empty ascending run above
+   the last id, next block id + run length below 2^32) and pruner runs with
+   arbitrary tails ---- *)
+Theorem C19_history_invariant : forall db,
+  ihist db -> exists i0 bl, iok i0 bl /\ stored db bl.
+Proof. exact ihist_inv. Qed.
+Print Assumptions C19_history_invariant.
+
+Theorem C19_history_sorted : forall db, ihist db -> exists l, db_abs db = Ok l /\ asc 0 l.
+Proof. exact hist_sorted. Qed.
+Print Assumptions C19_history_sorted.
+
+Theorem C19_history_write : forall db l limit ids w w',
+  ihist db -> db_abs db = Ok l -> last l 0 <= limit -> ids <> [] -> asc (last l 0) ids ->
+  db_next_id db + N.of_nat (length ids) + 2 < 4294967296 ->
+  new_index_writer db limit = Ok w -> iw_appends w ids = Ok w' ->
+  db_abs (iw_finish w' db) = Ok (l ++ ids).
+Proof. exact hist_write. Qed.
+Print Assumptions C19_history_write.
+
+(* pruning at any point of any history removes a prefix made only of ids below
+   the tail and never an id >= tail *)
+Theorem C19_history_prune : forall db l tail,
+  ihist db -> db_abs db = Ok l ->
+  exists l1 l2, l = l1 ++ l2 /\ db_abs (fst (prune_entry db tail)) = Ok l2 /\
+                (forall x, In x l1 -> x < tail) /\ (forall x, In x l -> tail <= x -> In x l2).
+Proof. exact hist_prune. Qed.
+Print Assumptions C19_history_prune.
 
 (* NOT PROVED (modelled, compared with the implementation on every run, checked
    by the Go-side sorted-slice oracle):
@@ -185,8 +231,11 @@ Print Assumptions C19_index_writer_session.
      limit trimming         : newBlockWriter / newIndexWriter / newIndexDeleter with a
                               limit below the last id keep exactly the ids <= limit
      reader totality        : iterators over corrupted (parsed) blocks never panic
-   NOT MODELLED: per-element extensions, bitmaps, extension filters
-   (filter_no_drop), the tail pruner (prune_tail_abs). *)
+     histories with deleter sessions or limit-trimming reopen: [ihist] covers writer
+                              sessions and pruner runs only
+   NOT MODELLED: per-element extensions, bitmaps, extension filters (filter_no_drop);
+   of the pruner only pruneEntry/prunePrefix's per-key effect is modelled (not its
+   goroutine, pause/resume protocol, batching or iterator re-opening). *)
 
 (* Historical witness (repaired in /repo commit 2876db98): before the repair
    scanSection did not look at binary.Uvarint's byte count ([scan_loop false]).
